@@ -1,11 +1,14 @@
 /-
-  Lemmas.CompressWitnessHello — kernel-evaluated witness (isolated: slow): the
-  contract `ChoicesOK` holds for `simpleChoice` on the single block of "hello"
-  at level 9, and the model writes these 39 bytes for it (libbz2 decodes them
-  to "hello": checks/w23_roundtrip.py compares the driver's output, which is
-  the same function compiled, with Python's bz2 on every run).
+  Lemmas.CompressWitnessHello — witness: the contract `ChoicesOK` holds for
+  `simpleChoice` on the single block of "hello" at level 9 (by
+  `Lemmas.CompressSimple.simpleChoice_ok_rle`, no evaluation), and the model
+  writes these 39 bytes for it (kernel-evaluated, about 5 s; libbz2 decodes
+  them to "hello": checks/w23_roundtrip.py compares the driver's output, which
+  is the same function compiled, with Python's bz2 on every run).
 -/
 import LbzVerif.Model.Compress
+import LbzVerif.Lemmas.CompressSimple
+import LbzVerif.Lemmas.CompressCut
 
 namespace LbzVerif.Lemmas.CompressWitnessHello
 open LbzVerif LbzVerif.Model.Compress
@@ -13,8 +16,9 @@ open LbzVerif LbzVerif.Model.Compress
 def hello : List UInt8 := [104, 101, 108, 108, 111]
 
 theorem helloChoices : ∀ b ∈ cutBlocks (9 * 100000) (Gen.memCompress 1 9).2.2.1 false hello,
-    ChoicesOK (Spec.rle1 b) (simpleChoice (Spec.rle1 b)) := by
-  decide +kernel
+    ChoicesOK (Spec.rle1 b) (simpleChoice (Spec.rle1 b)) :=
+  fun b hb => Lemmas.CompressSimple.simpleChoice_ok_rle b
+    (Lemmas.CompressCut.cutBlocks_mem _ _ false hello b hb).1
 
 theorem helloBytes : compressFile 9 false hello simpleChoice =
     [0x42, 0x5a, 0x68, 0x39, 0x31, 0x41, 0x59, 0x26, 0x53, 0x59, 0x19, 0x31, 0x65, 0x3d, 0x00,
